@@ -129,7 +129,10 @@ def run(ctx):
                 break
         r, ev = wrappers.accept("cache", trace)
         ctx.cov["traces_validated_against_impl"] = ctx.cov.get("traces_validated_against_impl", 0) + 1
-        if not r.startswith("accepted"):
+        if r.startswith("skipped"):
+            ctx.cov["traces_not_validated_acceptor_timeout"] = ctx.cov.get("traces_not_validated_acceptor_timeout", 0) + 1
+            ctx.cov["traces_validated_against_impl"] -= 1
+        elif not r.startswith("accepted"):
             pvlib.report_violation(ctx, "corr:cache-trace", {"verdict": r, "events_head": ev[:60]}, no_input=True,
                                    summary=f"cache: event trace not accepted by the wrapper automaton: {r}")
             break
